@@ -82,13 +82,20 @@ def layer_role(cfg, v, nlayers):
 
 
 class Overlay:
-    def __init__(self, sr, u, cfg, nlayers, lens=(1, 0, 2)):
+    def __init__(self, sr, u, cfg, nlayers, lens=(1, 0, 2), layer_kind='mem'):
         self.sr, self.u, self.cfg, self.n = sr, u, cfg, nlayers
         ex = sr.ex
         self.layer_trees = []
+        self.layer_kind = layer_kind
         st = Setup(sr, u)
+        if layer_kind == 'physshared':
+            sr.do('fs PH phys')        # all layers are directories of ONE PhysicalFS instance (same-fs fast paths apply)
         for i in range(nlayers):
-            sr.do('fs L%d mem' % i)
+            if layer_kind == 'physshared':
+                sr.do('join L%d PH %s' % (i, hx(('layer%d' % i).encode())))
+                sr.do('create_dir L%d' % i)
+            else:
+                sr.do('fs L%d mem' % i)
             st.define_paths('L%d' % i, 'L%d_' % i)
             shape = tuple((v, k) for v, k, s in cfg if i in s)
             t = st.build(shape, prefix='L%d_' % i, lens=lens[i:] + lens[:i], tag='c%d' % i)
@@ -109,6 +116,24 @@ class Overlay:
         if callee.startswith('<dyn FileSystem as FileSystem>::') and args:
             recv = deref(args[0])
             meth = callee.rsplit('::', 1)[1]
+            if self.layer_kind == 'physshared':
+                if recv is self.layer_fs[0] and len(args) > 1:
+                    # copy_file(src, dst) mutates dst only; move_* mutate both (src logged by the loop below as well)
+                    p_ = S(deref(args[2] if meth == 'copy_file' and len(args) > 2 else args[1]))
+                    if meth in ('move_file', 'move_dir') and len(args) > 2:
+                        q_ = S(deref(args[2]))
+                        for i in range(self.n):
+                            pre = ('/layer%d' % i).encode()
+                            if q_.is_concrete() and (bytes(q_) == pre or bytes(q_).startswith(pre + b'/')):
+                                self.log.append((i, meth, q_))
+                    if p_.is_concrete():
+                        for i in range(self.n):
+                            pre = ('/layer%d' % i).encode()
+                            if bytes(p_) == pre or bytes(p_).startswith(pre + b'/'):
+                                self.log.append((i, meth, p_))
+                                # copy_file / move_* name a second path
+                                break
+                return None
             for i, fs in enumerate(self.layer_fs):
                 if recv is fs:
                     self.log.append((i, meth, deref(args[1]) if len(args) > 1 else None))
@@ -140,7 +165,7 @@ def run_history_case(prog, params):
                 sr.outcomes.append((line, sr.last))
                 return r
             sr.do = do
-            ov = Overlay(sr, u, cfg, n)
+            ov = Overlay(sr, u, cfg, n, layer_kind=params.get('layer_kind', 'mem'))
             t = ov.model
             removed = set()
             names = 'ovl%d' % n
